@@ -9,6 +9,31 @@ direct = dict(t["demo2"])
 for k, v in t["demo"].items():
     direct.setdefault(k, v)
 
+# The analysis became more precise after the triage run (argument intervals of private functions bound their
+# parameters; a constant need on `param[c..]` moves to the parameter and from there to the call sites; guard helpers
+# are summarised).  Same sites, new signatures:
+REKEY = {
+    "vba::VbaProject::from_cfb|R-INDEX|call from_stream needs 4 of local#Continue.0": "vba::VbaProject::from_cfb|R-INDEX|call from_stream needs 10 of local",
+    "vba::VbaProject::from_cfb|R-INDEX|call read_dir_information needs 10 of local#Continue.0": "vba::VbaProject::from_cfb|R-INDEX|call read_dir_information needs 20 of local",
+    "vba::VbaProject::from_cfb|R-INDEX|call read_modules needs 4 of local#Continue.0": "vba::VbaProject::from_cfb|R-INDEX|call read_modules needs 12 of local",
+    "vba::read_variable_record|R-INDEX|split_at bounded64 of arg1": "vba::read_variable_record|R-INDEX|split_at bounded32 of arg1",
+    "xls::read_dbcs|R-ARITH|u64 bounded64 - src64": "xls::read_dbcs|R-ARITH|u64 bounded16 - src64",
+}
+# ... and sites that are now discharged: fixed-offset reads behind `param[c..]` whose need is reported once at the call
+# site in from_cfb (listed above); `len * mult` with mult always 1; a capacity bounded by 65535
+GONE = {
+    "vba::Reference::from_stream|R-INDEX|[a..] 6 of arg1", "vba::Reference::from_stream|R-INDEX|[a..] 6 of arg1#2", "vba::Reference::from_stream|R-INDEX|[a..] 6 of arg1#3",
+    "vba::read_dir_information|R-INDEX|[a..] 10 of arg1#2", "vba::read_dir_information|R-INDEX|[a..b] 2 of arg1", "vba::read_modules|R-INDEX|[a..] 8 of arg1",
+    "vba::read_variable_record|R-ARITH|u64 src32 * param2", "xls::read_dbcs|R-ALLOC|with_capacity bounded64",
+    # the shared-formula table became a map (fix a32db5e): nothing is left of these
+}
+groups = {fn: [REKEY.get(k, k) for k in ks if k not in GONE] for fn, ks in groups.items()}
+for o, n in REKEY.items():
+    if o in direct:
+        direct[n] = direct.pop(o)
+    if o in rows:
+        rows[n] = rows[o]
+
 AUDIT = [
     # (function regex, key regex, reason)
     (r"<xls[bx]::Xls[bx] as ReaderRef>::worksheet_range_ref$", r"R-PANIC\|expect", "the enclosing `if cells.first().map_or(false, ..)` is only true when `cells` is non-empty, so `cells.first()` is Some"),
@@ -51,6 +76,10 @@ MANUAL_DEMO = {
 # sites that appeared after the triage run (e.g. through a fix: commit that follows the surrounding unchecked style):
 # fn -> [(key, demonstration)]
 LATER = {
+    "vba::Reference::from_stream": [
+        ("vba::Reference::from_stream|R-INDEX|[a..] 4 of arg1#2", "kf_c06_vba_reference_control_truncated: a REFERENCECONTROL record cut after its 0x0030 token panics at src/vba.rs:251 (range start index 4 out of range for slice of length 2)"),
+        ("vba::Reference::from_stream|R-INDEX|[a..] 26 of arg1", "kf_c06_vba_reference_control_truncated: a REFERENCECONTROL record cut inside the GUID / cookie panics at src/vba.rs:253 (range start index 26 out of range for slice of length 10)"),
+    ],
     "xls::parse_formula": [("xls::parse_formula|R-INDEX|[a..] bounded64 of sub(arg1)", "audited"), ("xls::parse_formula|R-ARITH|u64 1 + src64", "audited")],
     "xls::read_unicode_string_no_cch": [("xls::read_unicode_string_no_cch|R-ARITH|u64 1 + src64", "audited")],
     "ods::get_range": [("ods::get_range|R-INDEX|[a..] unk of local", "audited")],
@@ -61,7 +90,7 @@ LATER = {
 }
 audited, findings, leftovers = [], [], []
 for fn, keys in groups.items():
-    keys = list(keys) + [k for k, _ in LATER.get(fn, [])]
+    keys = list(dict.fromkeys(list(keys) + [k for k, _ in LATER.get(fn, [])]))
     for k, d in LATER.get(fn, []):
         direct[k] = {"demo_test": d.split(":")[0], "case": d, "message": ""}
     open_keys = []
